@@ -46,7 +46,40 @@ def run(ctx):
     except AnalysisError as e_:
         ctx.note(f"Langevin one_step could not be interpreted ({str(e_)[:100]}); event-word reading only")
 
+    # R1 / R3 by value: whatever helpers, records or temporaries initialize() uses, the coefficients it leaves on the driver satisfy the identities (and are recomputed from
+    # the current settings on every call).  Where that holds, findings and "shape not recognised" stops of the def-chain reading below are spelling artefacts.
+    from ..assembly import interpreted_langevin_coefficients
+    bv = None
+    try:
+        bv = interpreted_langevin_coefficients(repo)
+    except AnalysisError as e_:
+        ctx.note(f"Langevin.initialize could not be interpreted ({str(e_)[:100]}); def-chain reading only")
     ini = md.func("Molecular_Dynamics_Langevin.initialize")
+    if bv is not None:
+        for msg_ in bv["messages"][:3]:
+            ctx.fail("R1", md, ini, "Molecular_Dynamics_Langevin.initialize", "langevin coefficients by value", msg_)
+        if bv["ok"]:
+            ctx.ok("R1", f"{MD} Molecular_Dynamics_Langevin.initialize", "by value: c1 = exp(-dt/(2 damp)), c1^2 + c2^2/(T m^-1 VEL_SCALE^2) = 1 per atom, recomputed from the current "
+                   "settings on every initialize(), in place before the parent initialisation, no damping time -> plain initialisation [EA+]")
+            ctx.ok("R3", f"{MD} Molecular_Dynamics_Langevin.initialize", "limits follow from the two identities: damp -> infinity gives c1 -> 1, c2 -> 0; T = 0 gives c2 = 0; 0 < c1 < 1")
+            ctx.demote = lambda rid, rel, function, message: ("decided by value (interpreted initialize)" if rid in ("R1", "R3") and rel == MD
+                                                              and function.startswith("Molecular_Dynamics_Langevin.initialize") else None)
+    try:
+        _shape_r1_r3(ctx, repo, md, sym, ini)
+    except AnalysisError as e_:
+        if bv is not None and bv["ok"]:
+            ctx.note(f"def-chain reading of the Langevin coefficients stopped ({str(e_)[:100]}); R1 / R3 are decided by value")
+        elif bv is not None:
+            pass    # violations already reported by value
+        else:
+            raise
+    finally:
+        ctx.demote = None
+    _r2_r4(ctx, repo, md)
+
+
+def _shape_r1_r3(ctx, repo, md, sym, ini):
+    import sympy as sp
     env = md_env(sym)
     c1 = c2 = None
     c_stmts = {}
@@ -131,6 +164,9 @@ def run(ctx):
     ctx.check(bool(sp.simplify(arg).is_negative), "R3", md, ini, "Molecular_Dynamics_Langevin.initialize", "0<c1<1", "0 < c1 < 1 for dt, damp > 0 (friction only removes energy)",
               f"c1 = {c1} is not a contraction for positive dt, damp")
 
+
+
+def _r2_r4(ctx, repo, md):
     # R2 shape
     th = md.func("Molecular_Dynamics_Langevin._apply_langevin_thermostat")
     muts = []
